@@ -29,7 +29,8 @@ def run_proc(cmd, timeout, env=None):
 
 
 class Recorder:
-    def __init__(self):
+    def __init__(self, kind='demo'):
+        self.kind = kind
         self.lock = threading.Lock()
         self.agg = lib.Agg()
         self.launches = 0
@@ -52,7 +53,7 @@ class Recorder:
 
     def viol(self, key, detail, case, observed=None, idx=None):
         with self.lock:
-            self.agg.violations.append(dict(key=key, detail=detail, case=case, observed=observed or {}, idx=idx, source='demos', tags=[]))
+            self.agg.violations.append(dict(key=key, detail=detail, case=case, observed=observed or {}, idx=idx, source='demos', tags=[], rerun=dict(kind=self.kind, idx=idx)))
 
     def inconclusive(self, msg):
         with self.lock:
@@ -204,10 +205,10 @@ def check_invalid_file(rec, demos, rng, idx, path, kinds, tier, timeout, mpi_ran
         rec.tag('mcb-dimacs-mpi[invalid,P=%d]' % P)
 
 
-def check_c11(tier, seed):
+def check_c11(tier, seed, only=None):
     v = lib.Verdict('C11', tier, seed)
     demos = lib.ensure_demos('rel')
-    rec = Recorder()
+    rec = Recorder('c11')
     nfiles = 36 if tier == 'quick' else 700
     ranks_all = [1, 2, 3, 4, 8]
     tmp = tempfile.mkdtemp(prefix='c11-', dir=lib.tree_dir())
@@ -231,7 +232,7 @@ def check_c11(tier, seed):
         os.unlink(path)
     try:
         with ThreadPoolExecutor(max_workers=8) as ex:
-            list(ex.map(one, range(nfiles)))
+            list(ex.map(one, range(nfiles) if only is None else only))
     finally:
         shutil.rmtree(tmp, ignore_errors=True)
     v.absorb(rec.agg)
@@ -260,7 +261,7 @@ def tbbwatch_run(cmd, preload, timeout):
     return r, obs
 
 
-def c20_demo_part(rec, tier, seed):
+def c20_demo_part(rec, tier, seed, only=None):
     demos = lib.ensure_demos('rel', ['mcb-dimacs', 'approx-mcb-dimacs'])
     preload = lib.build_c('tbbwatch.so', 'preload/tbbwatch.c', '-shared -fPIC -O2')
     tmp = tempfile.mkdtemp(prefix='c20-', dir=lib.tree_dir())
@@ -305,7 +306,7 @@ def c20_demo_part(rec, tier, seed):
             rec.agg.summary['parallel_regions_observed'] += obs.get('regions', 0)
     try:
         with ThreadPoolExecutor(max_workers=4) as ex:
-            list(ex.map(one, range(n_cases)))
+            list(ex.map(one, range(n_cases) if only is None else only))
     finally:
         shutil.rmtree(tmp, ignore_errors=True)
 
@@ -319,7 +320,7 @@ def check_c20(tier, seed):
     # deterministic second view: lifetime of the control object as seen by the instrumented global_control
     agg2 = lib.run_cases(bins[('h_knob', 'shim')], 'c20', seed + 17, 40 if tier == 'quick' else 400, chunk=1, nproc=8, timeout=600, max_samples=1, opts=dict(n=40, m=90), source='h_knob(shim):c20')
     v.absorb(agg2)
-    rec = Recorder()
+    rec = Recorder('c20demo')
     c20_demo_part(rec, tier, seed)
     v.absorb(rec.agg)
     total = lib.Agg()
